@@ -39,7 +39,7 @@ SCOPE = ("all operation histories up to the depth bound over the finite menu (me
 
 
 def bounds(tier):
-    return {"grids": [U.spec_id(s) for s in _grids(tier)], "depth": _depth(tier), "slots": 2, "roots": ["init_default", "init_bc_passed", "init_int (periodic)"],
+    return {"grids": [U.spec_id(s) for s in _grids(tier)], "depth": [_depth(tier, gi) for gi in range(len(_grids(tier)))], "slots": 2, "roots": ["init_default", "init_bc_passed", "init_int (periodic)"],
             "tables": "initial-value form (10) x BC style (3) x value edit (5); boundary-face form (4) x coefficient edit (8); on all nine classes"}
 
 
@@ -52,8 +52,10 @@ def _grids(tier):
     return g
 
 
-def _depth(tier):
-    return 3 if tier == "quick" else 4
+def _depth(tier, gi=0):
+    """Depth bound per grid: quick 3 everywhere; thorough 4 on the first two grids (Grid1D, Grid2D - about 30x the states
+    of depth 3 each), 3 on the others."""
+    return 3 if (tier == "quick" or gi >= 2) else 4
 
 
 # ------------------------------------------------------------------ the model
@@ -564,7 +566,7 @@ class Model:
 # ------------------------------------------------------------------ harness interface
 
 def cases(tier):
-    return [{"grid": s, "depth": _depth(tier)} for s in _grids(tier)]
+    return [{"grid": s, "depth": _depth(tier, gi)} for gi, s in enumerate(_grids(tier))]
 
 
 def _forms_case(spec):
@@ -718,7 +720,7 @@ def explore(tier):
                                             "outcomes": {"forms:%s" % ("ok" if not F else "viol"): 1}})
     for gi, s in enumerate(_grids(tier)):
         m = Model(s)
-        r = histbfs.bfs(m, _depth(tier))
+        r = histbfs.bfs(m, _depth(tier, gi))
         if tier == "thorough" and gi == 0:
             # soundness of the state merging: pure history enumeration (no merging) to depth 3 must
             # produce exactly the same set of finding keys as the merged search up to that depth
@@ -740,7 +742,7 @@ def explore(tier):
         for hist in sorted(by_hist, key=len):
             yield ({"grid": s, "history": list(hist)},
                    {"evals": 0, "nontrivial": 0, "findings": by_hist[hist], "outcomes": {"viol": 1}})
-        yield ({"grid": s, "depth": _depth(tier)},
+        yield ({"grid": s, "depth": _depth(tier, gi)},
                {"evals": r["states"], "nontrivial": r["states"], "states": r["states"], "transitions": r["transitions"],
                 "findings": [], "outcomes": {"bfs:%s" % U.spec_id(s): 1}, "depth_completed": r["depth_completed"],
                 "closed": r["closed"], "per_level": r["per_level"], "caps_hit": r["caps_hit"], "label": U.spec_id(s),
